@@ -249,6 +249,57 @@ def run(world, rep, tier, only=None):
         rep.ob("C06.e", "*:*:releases that leave the pointer in place are final", True,
                "%d such releases examined; none is followed by a second release of the same field" % n_e)
 
+    # ------------------------------------------------------------------ C06.f a record is validated before a walk strides by its length
+    # The fast-commit area is a sequence of tag/length/value records.  Each walker advances its cursor by a length read
+    # from the record; the record must have passed a test that relates that length to the end of the block - on
+    # every path to the stride - or the next header, the value copies and the checksum run outside the buffer.
+    n_f = 0
+    for (file, pn) in (("e2fsck/journal.c", "e2fsck"), ("debugfs/logdump.c", "debugfs")):
+        prog = world.program(pn, plain=True)
+        for fn in prog.fns_in_file(file):
+            ft = taint.FnTaint(fn)
+            for n in fn.events("S"):
+                l = T.strip(n.ev["lhs"])
+                rhs = n.ev.get("rhs")
+                if not (isinstance(l, dict) and l.get("k") == "v" and taint._is_ptr(l) and isinstance(rhs, dict)):
+                    continue
+                if n.ev.get("o") not in ("+=", "=") or (n.ev["o"] == "=" and l["n"] not in T.vars_in(rhs)):
+                    continue
+                stride_src, rec_vars = set(), set()
+                for x in T.walk(rhs):
+                    if isinstance(x, dict) and x.get("k") in ("v", "m") and T.path(x) != l["n"]:
+                        s_ = ft.sources(x)
+                        if any(y.startswith("ext4_fc_tl.") for y in s_):
+                            stride_src |= s_
+                            rec_vars |= T.vars_in(x)
+                if not stride_src:
+                    continue
+                hb = loop_head(fn, n)
+                if hb is None:
+                    continue
+                n_f += 1
+                # the loop's bound: what the cursor is compared with in the loop condition
+                bound_vars = set()
+                tcond = (fn.blocks[hb].get("t") or {}).get("c")
+                if isinstance(tcond, dict):
+                    bound_vars = T.vars_in(tcond) - {l["n"]} - rec_vars
+                body = loop_body(fn, hb)
+                guards = []
+                for bid in fn.blocks:
+                    lit = fn.literal(bid)
+                    end_ = fn.block_end(bid)
+                    if not lit or end_ not in body:
+                        continue
+                    av = T.vars_in(lit[0])
+                    if (av & rec_vars) and (av & bound_vars) and any(m not in body for (m, si) in fn.succ(end_)):
+                        guards.append(end_)
+                ok = bool(guards) and fn.dominated_by(n, guards)
+                rep.ob("C06.f", site(fn, "record validated against the end of the block before the stride"), ok,
+                       "`%s` (line %d) strides by %s: %d test(s) in the loop relate the record (%s) to the bound (%s), leave the loop "
+                       "on failure and lie on every path to the stride" %
+                       (n.text()[:40], n.line, sorted(stride_src)[:2], len(guards), sorted(rec_vars), sorted(bound_vars)))
+    rep.floor("C06.f fast-commit record walkers", n_f, 3)
+
     # C06.b cursor lifetime in the rbtree bitmap — shared with C16.b
     try:
         from rules import C16
